@@ -3,7 +3,13 @@
 #include "cv.h"
 
 /* ---------------------------------------------------------------- sequential atomics for LF/LC targets */
-#ifndef RG_MODE
+#if defined(G2W)
+/* grow_to_at_least's wait: a table entry that is still NULL may be published by its owner at any moment (NULL -> non-null, once); applied when the entry is read */
+void *g2w_touch(void *p);
+#define ATOMIC_LOAD(x) (*(__typeof__(&(x)))g2w_touch(&(x)))
+static bool cas_sz(size_t *f, size_t *e, size_t d) { if (*f == *e) { *f = d; return true; } *e = *f; return false; }
+#define ATOMIC_CAS(f, e, d) cas_sz(&(f), e, d)
+#elif !defined(RG_MODE)
 #define ATOMIC_LOAD(x) (x)
 static bool cas_sz(size_t *f, size_t *e, size_t d) { if (*f == *e) { *f = d; return true; } *e = *f; return false; }
 #define ATOMIC_CAS(f, e, d) cas_sz(&(f), e, d)
@@ -57,6 +63,13 @@ static void mk_vector(struct cv *v, bool embedded) {
     v->my_size = nondet_size_t();
     v->my_segment_table_allocation_failed = nondet_bool();
 }
+/* table contents: every entry unallocated (NULL), failed (tag) or some pointer -- statics are zero-initialised, so this must be explicit */
+static void any_tables(void) {
+    for (int s = 0; s < 64; ++s) {
+        g_long[s] = nondet_bool() ? segment_allocation_failure_tag : (segment_type)nondet_ptr();
+        if (s < 3) g_emb[s] = nondet_bool() ? segment_allocation_failure_tag : (segment_type)nondet_ptr();
+    }
+}
 bool IN_emb;
 void h_number_of_segments(void) {
     struct cv v; mk_vector(&v, IN_emb = nondet_bool());
@@ -66,7 +79,8 @@ void h_number_of_segments(void) {
 }
 static bool valid_seg(segment_type s) { return (uintptr_t)s > (uintptr_t)1; }
 void h_capacity(void) {
-    struct cv v; mk_vector(&v, IN_emb = nondet_bool());
+    struct cv v; mk_vector(&v, IN_emb = nondet_bool()); any_tables();
+    __CPROVER_assume(!valid_seg(g_long[63]));   /* vectors of less than 2^63 elements: segment 63 is never allocated */
     size_t n = IN_emb ? 3 : 64, first_bad = n;
     for (size_t s = 0; s < n; ++s) if (!valid_seg(v.my_segment_table[s])) { first_bad = s; break; }
     size_t c = st_capacity(&v);
@@ -74,7 +88,7 @@ void h_capacity(void) {
     VACUITY_END();
 }
 void h_find_last(void) {
-    struct cv v; mk_vector(&v, IN_emb = nondet_bool());
+    struct cv v; mk_vector(&v, IN_emb = nondet_bool()); any_tables();
     size_t n = IN_emb ? 3 : 64, last = 0;
     for (size_t s = 0; s < n; ++s) if (valid_seg(v.my_segment_table[s])) last = s + 1;
     size_t c = st_find_last_allocated_segment(&v, v.my_segment_table);
@@ -83,6 +97,12 @@ void h_find_last(void) {
 }
 
 /* ---------------------------------------------------------------- subscript / at() */
+#ifdef GROW
+bool g_exc;
+#define EXC_EDGE(r) do { if (g_exc) return r; } while (0)   /* a callee of internal_subscript<true> threw */
+#else
+#define EXC_EDGE(r)
+#endif
 bool g_threw;
 #define VERIF_THROW(id) do { g_threw = true; return NULL; } while (0)
 void st_extend_table_if_necessary(struct cv *self, segment_table_type *table, size_type start, size_type end);
@@ -91,18 +111,18 @@ void st_enable_segment(struct cv *self, segment_type *segment, segment_table_typ
 
 size_t IN_index, IN_size;
 void h_at(void) {
-    struct cv v; mk_vector(&v, IN_emb = nondet_bool());
+    struct cv v; mk_vector(&v, IN_emb = nondet_bool()); any_tables();
     v.my_size = IN_size = nondet_size_t();
     size_t i = IN_index = nondet_size_t();
     g_threw = false;
     value_type *r = cv_internal_subscript_with_exceptions(&v, i);
     /* CBMC's own bounds checks on table[seg_index] are the "every table read is at an index < number_of_segments" obligation */
-    OBLIGATION(r != NULL || g_threw, "C11.at: returns an element or throws");
     OBLIGATION(i < IN_size || g_threw, "C11.at: an index >= size() throws");
     if (!g_threw) {
         size_t k = segment_index_of(i);
         OBLIGATION(k < (IN_emb ? 3 : 64), "C11.at: a returned element lives in a segment the active table has");
         OBLIGATION(valid_seg(v.my_segment_table[k]), "C11.at: a returned element lives in an allocated segment");
+        if (k < (IN_emb ? 3 : 64)) OBLIGATION(r == v.my_segment_table[k] + i, "C11.at: at(i) returns the address of element i in its segment");
     }
     VACUITY_END();
 }
@@ -142,9 +162,24 @@ static size_t cv_size(struct cv *self) { return self->my_size; }
 /* contract of spin_wait_while_eq: returns only once the location differs from the value */
 #define SPIN_WAIT_WHILE_EQ(loc, val) do { loc = g_long; __CPROVER_assume((loc) != (val)); } while (0)
 #define LOOP_g2al_1 __CPROVER_assigns(old_size, self->my_size) __CPROVER_loop_invariant(1)
+#ifdef G2W
+size_t g2w_s;   /* ghost: one arbitrary segment index */
+void *g2w_touch(void *p) {
+    if (__CPROVER_same_object(p, g_long) || __CPROVER_same_object(p, g_emb)) {
+        segment_type *e = (segment_type *)p;
+        if (*e == NULL && nondet_bool()) { segment_type x = (segment_type)nondet_ptr(); __CPROVER_assume(x != NULL); *e = x; }
+    }
+    return p;
+}
+#define G2W_T (self->my_segment_table)
+#define LOOP_g2al_2 __CPROVER_assigns(seg_idx, __CPROVER_object_whole(g_long), __CPROVER_object_whole(g_emb)) \
+    __CPROVER_loop_invariant(seg_idx <= end_segment + 1 && (g2w_s < seg_idx ? G2W_T[g2w_s] != NULL : 1))
+#define LOOP_g2al_3 __CPROVER_assigns(__CPROVER_object_whole(g_long), __CPROVER_object_whole(g_emb)) __CPROVER_loop_invariant(g2w_s < seg_idx ? G2W_T[g2w_s] != NULL : 1)
+#else
 #define LOOP_g2al_2 __CPROVER_assigns(seg_idx) __CPROVER_loop_invariant(seg_idx <= end_segment + 1)
 #define LOOP_g2al_3 __CPROVER_loop_invariant(1)
-#ifndef RG_MODE
+#endif
+#if !defined(RG_MODE) && !defined(ILCG) && !defined(ILCL) && !defined(SEGRG) && !defined(GROW) && !defined(EXTRG)
 #include "grow.inc"
 #include "nes.inc"
 size_t IN_old, IN_new;
@@ -160,6 +195,22 @@ void h_g2al(void) {
     OBLIGATION(n == 0 || v.my_size >= n, "C11.g2al: size() >= n afterwards");
     VACUITY_END();
 }
+#ifdef G2W
+void h_g2al_waits(void) {
+    struct cv v; mk_vector(&v, IN_emb = nondet_bool()); any_tables();
+    size_t n = IN_new = nondet_size_t();
+    size_t old = IN_old = v.my_size;
+    __CPROVER_assume(n != 0 && old >= n && n <= ((size_t)1 << 63));      /* the branch that does not grow: another call already moved size() to n or beyond */
+    size_t es = segment_index_of(n - 1);
+    __CPROVER_assume(IN_emb ? es < 3 : 1);                                /* the active table stays what it is during the wait (its switch is table.extend's concern) */
+    g2w_s = IN_k = nondet_size_t(); __CPROVER_assume(g2w_s <= es);
+    g_grow_called = false;
+    cv_internal_grow_to_at_least(&v, n);
+    OBLIGATION(!g_grow_called, "C11.g2al: a call that did not move size() constructs nothing");
+    OBLIGATION(v.my_segment_table[g2w_s] != NULL, "C11.g2al: grow_to_at_least(n) returns only after every segment that holds an index below n is published (allocated or marked failed)");
+    VACUITY_END();
+}
+#endif
 size_t IN_seg;
 void h_nes(void) {
     struct cv v; mk_vector(&v, false);
@@ -231,4 +282,622 @@ void h_afb(void) {
     OBLIGATION(idx == 0 || v.my_first_block != 0, "C11.afb: after the call the first block is assigned");
     VACUITY_END();
 }
+/* ---- internal_emplace_back (push_back / emplace_back): claims one index by my_size++ and constructs it; guard zero-fills that one slot */
+bool g_exc;
+#define EXC_PENDING() (g_exc)
+#define EXC_RETHROW(r) return r
+#define EXC_PROPAGATE(r) do { if (g_exc) return r; } while (0)
+#define ATOMIC_POSTINC_AT(site, f) ATOMIC_FETCH_ADD_AT(site, f, (size_t)1)
+#define ATOMIC_PREINC_AT(site, f) (ATOMIC_FETCH_ADD_AT(site, f, (size_t)1) + 1)
+#define default_first_block_size ((size_type)1)   /* static constexpr size_type default_first_block_size = 1; (checked by spec.py) */
+typedef struct { struct cv *v; size_type idx; value_type *addr; } iterator2;
+#undef ITER
+#define ITER(vec, i) ((iterator){ (vec), (i) })
+size_t e_sub_idx; unsigned e_sub_calls, e_ctor_calls, e_zero_calls; value_type *e_zero_p; size_t e_zero_n; value_type *e_ctor_p; int e_fail;
+static value_type e_cell; value_type *e_ret_addr; size_t e_ret_idx; bool e_returned;
+#define ITER2(vec, i, a) (e_returned = true, e_ret_idx = (i), e_ret_addr = (a), (iterator){ (vec), (i) })
+static value_type *STUB_subscript_growing(struct cv *self, size_type idx) { if (e_sub_calls < 2) e_sub_calls++; e_sub_idx = idx; if (nondet_bool()) { g_exc = true; e_fail = 1; return NULL; } return &e_cell; }
+static void STUB_construct(struct cv *self, value_type *p) { if (e_ctor_calls < 2) e_ctor_calls++; e_ctor_p = p; if (nondet_bool()) { g_exc = true; e_fail = 2; } }
+static void STUB_zero_unconstructed_elements(value_type *p, size_type n) { if (e_zero_calls < 2) e_zero_calls++; e_zero_p = p; e_zero_n = n; }
+#include "emplace_back.inc"
+void h_emplace_back(void) {
+    struct cv v; mk_vector(&v, false); g_v = &v; fb_first = v.my_first_block;
+    o_made = nondet_bool(); o_lo = nondet_size_t(); o_hi = nondet_size_t(); my_made = false;
+    __CPROVER_assume(RG_INV);
+    g_exc = false; e_sub_calls = e_ctor_calls = e_zero_calls = 0; e_fail = 0; e_returned = false;
+    cv_internal_emplace_back(&v);
+    interfere();
+    OBLIGATION(my_made && my_hi - my_lo == 1, "C11.push: push_back claims exactly one index by its fetch_add on size");
+    OBLIGATION(!o_made || o_hi <= my_lo || my_hi <= o_lo, "C11.push: the claimed index belongs to no other thread's claimed range");
+    OBLIGATION(my_hi <= v.my_size, "C11.push: the claimed index lies below size()");
+    OBLIGATION(e_sub_calls == 1 && e_sub_idx == my_lo, "C11.push: the element address is computed for exactly the claimed index");
+    OBLIGATION(v.my_first_block != 0, "C11.push: the first block is assigned before the first segment is created");
+    OBLIGATION(g_exc == (e_fail != 0), "C11.push: push_back throws iff the allocation or the constructor threw");
+    if (e_fail == 1) OBLIGATION(e_ctor_calls == 0 && e_zero_calls == 0, "C11.push: after a failed segment allocation nothing is constructed or written");
+    else {
+        OBLIGATION(e_ctor_calls == 1 && e_ctor_p == &e_cell, "C11.push: exactly one element is constructed, at the address of the claimed index");
+        if (e_fail == 2) OBLIGATION(e_zero_calls == 1 && e_zero_p == &e_cell && e_zero_n == 1, "C11.push: when the constructor throws exactly the claimed slot is zero-filled (the vector stays destructible), nothing else");
+        else OBLIGATION(e_zero_calls == 0 && e_returned && e_ret_idx == my_lo && e_ret_addr == &e_cell, "C11.push: on success nothing is zero-filled and the iterator designates the claimed index and its address");
+    }
+    VACUITY_END();
+}
+#endif
+
+/* ================================================================ exception guard of internal_loop_construct (both overloads) */
+#if defined(ILCG) || defined(ILCL)
+bool g_exc;                       /* an exception is in flight */
+#define EXC_PENDING() (g_exc)
+#define EXC_RETHROW() return
+#define EXC_PROPAGATE() do { if (g_exc) return; } while (0)
+size_t g_k;                       /* ghost index: one arbitrary slot of the vector (facts about it hold for every slot) */
+bool g_zeroed_k;                  /* ghost: slot g_k has been zero-filled by the guard */
+static value_type g_cell;
+/* table contents: every entry is unallocated (NULL), failed (tag) or allocated */
+static void havoc_tables(void) {
+    for (size_t s = 0; s < 3; ++s) { uintptr_t x = nondet_uintptr_t(); __CPROVER_assume(x <= 2); g_emb[s] = (segment_type)x; }
+    for (size_t s = 0; s < 64; ++s) { uintptr_t x = nondet_uintptr_t(); __CPROVER_assume(x <= 2); g_long[s] = (segment_type)x; }
+}
+#endif
+
+#ifdef ILCG
+/* The guard body (lambda) as sliced.  State it sees:
+     table  -- the table pointer internal_grow took (after extend_table_if_necessary(table, start_idx, end_idx)); either the active table or,
+               when another thread switched to the long table afterwards, the embedded table (then end_idx <= embedded_table_size)
+     idx    -- the index whose constructor threw; internal_subscript<true>(idx) had returned normally, so its segment is allocated
+     end_idx-- the end of the range this call claimed by fetch_add / CAS on my_size (so end_idx <= my_size, and my_size only grows)     */
+size_t G_idx, G_end0, g_sub_index;
+struct cv *g_v;
+size_t G_nseg;
+static size_type st_segment_size(size_type k) { return segment_size(k); }   /* the guard has a local named segment_size */
+#ifdef ILCG_RANGE
+#define SLOT_ADDR(self, i) (g_sub_index = (i), &g_cell)                       /* pure range arithmetic: no table access */
+#else
+#define SLOT_ADDR(self, i) (g_sub_index = (i), cv_internal_subscript((self), (i)))   /* the real internal_subscript: table read is bounds-checked, its __TBB_ASSERTs are obligations */
+#endif
+static void STUB_zero_unconstructed_elements(value_type *p, size_type count) {   /* memset(p, 0, count * sizeof(T)) on the slots [i, i+count) whose address was just computed */
+    size_t i = g_sub_index;
+    OBLIGATION(i >= G_idx && i < G_end0 && count <= G_end0 - i,
+               "C11.guard.range: the exception guard zero-fills only slots of its own call's range [failing index, end of the range handed out to this call)");
+#ifndef ILCG_RANGE
+    OBLIGATION(count == 0 || (segment_index_of(i) < G_nseg && valid_seg(g_v->my_segment_table[segment_index_of(i)])),
+               "C11.guard.alloc: the exception guard writes only to slots whose segment is allocated");
+#endif
+    if (i <= g_k && g_k - i < count) g_zeroed_k = true;
+}
+#define GUARD_LOOP __CPROVER_assigns(i, g_sub_index, g_zeroed_k) \
+    __CPROVER_loop_invariant(i >= idx && (i <= *end_idx_ref || i == idx) && g_zeroed_k == (idx <= g_k && g_k < i)) \
+    __CPROVER_decreases(i < *end_idx_ref ? *end_idx_ref - i : 0)
+#define LOOP_ilcg_args_1 GUARD_LOOP
+#define LOOP_ilcg_iter_1 GUARD_LOOP
+#include "ilc_guard.inc"
+#ifdef OVL_ITER
+#define THE_GUARD ilcg_iter
+#else
+#define THE_GUARD ilcg_args
+#endif
+bool IN_stale;
+void h_ilc_guard(void) {
+    struct cv v; bool emb = IN_emb = nondet_bool(); mk_vector(&v, emb); havoc_tables(); g_v = &v;
+    size_t nseg = G_nseg = emb ? 3 : 64;
+    segment_table_type snap = v.my_segment_table;
+    bool stale = IN_stale = nondet_bool();
+    size_t idx = IN_index = nondet_size_t(), end0 = IN_j = nondet_size_t();
+    __CPROVER_assume(idx < end0 && end0 <= v.my_size);                    /* the claimed range lies below my_size */
+    __CPROVER_assume(v.my_size <= ((size_t)1 << 63) && !valid_seg(g_long[63])); /* vectors of at most 2^63 elements: segment 63 (2^63 elements) is never allocated */
+    __CPROVER_assume(segment_index_of(end0 - 1) < nseg);                  /* internal_grow extended the table for end_idx before constructing */
+    if (stale) {                                                          /* the snapshot is the embedded table although the long table is active */
+        __CPROVER_assume(!emb && end0 <= 8);
+        snap = g_emb;
+    }
+    size_t last_snap = 0;
+    for (size_t s = 0; s < (snap == g_emb ? 3 : 64); ++s) if (valid_seg(snap[s])) last_snap = s + 1;
+#ifndef ILCG_RANGE
+    __CPROVER_assume(valid_seg(v.my_segment_table[segment_index_of(idx)])); /* internal_subscript<true>(idx) returned normally */
+    if (stale) for (size_t s = 0; s < 3; ++s) __CPROVER_assume(g_emb[s] == NULL || g_emb[s] == g_long[s]);   /* embedded entries were copied when the long table was made */
+    bool hole = false;   /* an unallocated or failed segment among the segments of this call's range that the guard's bound covers */
+    size_t s_idx = segment_index_of(idx), s_end = segment_index_of(end0 - 1);
+    for (size_t s = 0; s < nseg; ++s)
+        if (s_idx <= s && s <= s_end && s < last_snap && !valid_seg(v.my_segment_table[s])) hole = true;
+#ifdef ILCG_HOLE
+    __CPROVER_assume(hole);
+#else
+    __CPROVER_assume(!hole);
+#endif
+#endif
+    g_k = nondet_size_t(); g_zeroed_k = false; G_idx = idx; G_end0 = end0;
+    IN_k = nondet_size_t(); __CPROVER_assume(IN_k <= idx);   /* start_idx of the call */
+    size_t end = end0;
+    THE_GUARD(&v, snap, IN_k, idx, &end);
+    OBLIGATION(!g_zeroed_k || (idx <= g_k && g_k < end0), "C11.guard.range: no slot outside [failing index, end of this call's range) is zero-filled");
+#if !defined(ILCG_RANGE) && !defined(ILCG_HOLE)
+    if (!stale && idx <= g_k && g_k < end0 && valid_seg(v.my_segment_table[segment_index_of(g_k)]))
+        OBLIGATION(g_zeroed_k, "C11.guard.complete: every not-yet-constructed slot of this call that lies in an allocated segment is zero-filled (the vector stays destructible)");
+#endif
+    VACUITY_END();
+}
+#endif
+
+/* ================================================================ internal_loop_construct (both overloads): construction loop + exception edges */
+#ifdef ILCL
+/* callee contracts
+     internal_subscript<true>(idx) -- returns the address of slot idx after making sure its segment is allocated (allocates it when idx is the segment's
+                                      first index, waits for the owner otherwise), or throws bad_alloc when that allocation failed (segment tagged failed)
+     element constructor           -- may throw; constructs nothing then
+     the exception guard           -- contract proved by ilc.guard.range / ilc.guard.alloc.contiguous: zero-fills exactly the slots of [idx, end_idx)
+                                      that lie in allocated segments */
+size_t G_start, G_end0;
+unsigned g_constructed_k;         /* ghost: how often slot g_k was constructed */
+bool g_alloc_k;                   /* ghost: the segment of slot g_k is allocated when the call leaves */
+size_t g_total;                   /* ghost: number of successful constructions */
+size_t g_addr_idx; bool g_addr_valid;
+int g_fail_kind; size_t g_fail_idx;   /* 0 none, 1 allocation failed in internal_subscript<true>, 2 element constructor threw */
+unsigned g_guard_runs; size_t g_guard_idx, g_guard_end; segment_table_type g_guard_table;
+size_t g_first0; bool g_values_in_order;
+static value_type *STUB_subscript_growing(struct cv *self, size_type idx) {
+    if (nondet_bool()) {
+        g_exc = true; g_fail_kind = 1; g_fail_idx = idx; g_addr_valid = false;
+        if (segment_index_of(idx) == segment_index_of(g_k)) __CPROVER_assume(!g_alloc_k);   /* the segment whose allocation failed is not allocated */
+        return NULL;
+    }
+    if (idx == g_k) __CPROVER_assume(g_alloc_k);                                             /* a slot whose address was handed out lies in an allocated segment */
+    g_addr_idx = idx; g_addr_valid = true; return &g_cell;
+}
+static void construct_at(value_type *p) {
+    OBLIGATION(g_addr_valid && p == &g_cell, "C11.loop: an element is constructed at the address internal_subscript returned for its own index");
+    size_t i = g_addr_idx;
+    g_addr_valid = false;   /* one construction per address computation */
+    if (nondet_bool()) { g_exc = true; g_fail_kind = 2; g_fail_idx = i; return; }
+    OBLIGATION(G_start <= i && i < G_end0, "C11.loop: only indices of the range handed out to this call are constructed");
+    if (i == g_k) { OBLIGATION(g_constructed_k == 0, "C11.loop: no index is constructed twice"); g_constructed_k++; }
+    g_total++;
+}
+static void STUB_construct(struct cv *self, value_type *p) { construct_at(p); }
+static void STUB_construct_from(struct cv *self, value_type *p, size_type pos) {
+    OBLIGATION(!g_addr_valid || pos - g_first0 == g_addr_idx - G_start, "C11.loop: element start+j is constructed from the j-th value of the source sequence [first,last)");
+    if (g_addr_valid && pos - g_first0 != g_addr_idx - G_start) g_values_in_order = false;
+    construct_at(p);
+}
+static void guard_contract(struct cv *self, segment_table_type table, size_type start_idx, size_type idx, size_type *end_idx_ref) {
+    OBLIGATION(g_exc, "C11.loop: the exception guard runs only while a constructor's exception is in flight (it is dismissed after every successful construction)");
+    if (g_guard_runs < 2) g_guard_runs++;
+    g_guard_idx = idx; g_guard_end = *end_idx_ref; g_guard_table = table;
+    if (idx <= g_k && g_k < *end_idx_ref && g_alloc_k) g_zeroed_k = true;
+    size_t e = nondet_size_t(); __CPROVER_assume(e <= *end_idx_ref); *end_idx_ref = e;   /* the guard may lower the captured end_idx */
+}
+#define ILC_GUARD_args guard_contract
+#define ILC_GUARD_iter guard_contract
+#define ILC_INV (!g_exc && end_idx == G_end0 && start_idx == G_start && start_idx <= idx && idx <= end_idx && g_guard_runs == 0 && !g_zeroed_k && g_fail_kind == 0 \
+                 && g_total == idx - start_idx && g_constructed_k == ((start_idx <= g_k && g_k < idx) ? 1u : 0u) && g_values_in_order)
+#define ILC_ASSIGNS idx, end_idx, g_exc, g_fail_kind, g_fail_idx, g_addr_valid, g_addr_idx, g_total, g_constructed_k, g_guard_runs, g_guard_idx, g_guard_end, g_guard_table, g_zeroed_k, g_values_in_order
+#define LOOP_ilc_args_1 __CPROVER_assigns(ILC_ASSIGNS) __CPROVER_loop_invariant(ILC_INV) __CPROVER_decreases(end_idx - idx)
+#define LOOP_ilc_iter_1 __CPROVER_assigns(ILC_ASSIGNS, first) __CPROVER_loop_invariant(ILC_INV && first - g_first0 == idx - start_idx) __CPROVER_decreases(end_idx - idx)
+#include "ilc_loop.inc"
+void h_ilc_loop(void) {
+    struct cv v; mk_vector(&v, IN_emb = nondet_bool());
+    size_t start = IN_i = nondet_size_t(), end0 = IN_j = nondet_size_t();
+    __CPROVER_assume(start < end0);            /* internal_grow is called with a non-empty range (delta != 0, old_size < new_size) */
+    G_start = start; G_end0 = end0;
+    g_k = nondet_size_t(); g_alloc_k = nondet_bool(); g_constructed_k = 0; g_zeroed_k = false; g_total = 0; g_addr_valid = false;
+    g_exc = false; g_fail_kind = 0; g_guard_runs = 0; g_values_in_order = true;
+    g_first0 = nondet_size_t();
+    segment_table_type table = v.my_segment_table;
+#ifdef OVL_ITER
+    cv_ilc_iter(&v, table, start, end0, g_first0);
+#else
+    cv_ilc_args(&v, table, start, end0);
+#endif
+    bool in_range = start <= g_k && g_k < end0;
+    OBLIGATION(g_exc == (g_fail_kind != 0), "C11.loop: the call leaves with an exception iff an allocation or a constructor threw");
+    OBLIGATION(g_values_in_order, "C11.loop: element start+j is constructed from the j-th value of the source sequence");
+    if (!g_exc) {
+        OBLIGATION(g_constructed_k == (in_range ? 1u : 0u) && g_total == end0 - start, "C11.loop: every index of the range handed out to this call is constructed exactly once and no other index");
+        OBLIGATION(g_guard_runs == 0 && !g_zeroed_k, "C11.loop: the exception guard does not run (nothing is zero-filled) when no constructor threw");
+    } else {
+        size_t f = g_fail_idx;
+        OBLIGATION(start <= f && f < end0 && g_total == f - start && g_constructed_k == ((start <= g_k && g_k < f) ? 1u : 0u),
+                   "C11.loop: when index f fails exactly the indices [start, f) of this call have been constructed, each once");
+        if (g_fail_kind == 2)
+            OBLIGATION(g_guard_runs == 1 && g_guard_idx == f && g_guard_end == end0 && g_guard_table == table,
+                       "C11.loop: a throwing constructor at index f runs the exception guard exactly once, for the rest [f, end) of this call's own range");
+#ifdef ILCL_PREALLOC   /* domain: the allocation for index f failed although a segment of this call above it is already allocated (internal_grow allocates the last one eagerly) */
+        __CPROVER_assume(g_fail_kind == 1 && in_range && g_k >= f && g_alloc_k);
+#else
+        __CPROVER_assume(!(g_fail_kind == 1 && in_range && g_k >= f && g_alloc_k));
+#endif
+        if (in_range && g_alloc_k)
+            OBLIGATION(g_constructed_k == 1 || g_zeroed_k,
+                       "C11.loop.destructible: when the call leaves with an exception every slot of its range that lies in an allocated segment is constructed or zero-filled");
+    }
+    VACUITY_END();
+}
+#endif
+
+/* ================================================================ RG on the segment table entries: create_segment */
+#ifdef SEGRG
+/* One table entry is one shared word.  Protocol (rely == what every thread's guarantee states):
+     - an entry is written only while it is still NULL, and only by the thread that owns it; afterwards it never changes
+     - owner of entry s >= first_block : the thread that holds index segment_base(s) (unique: fetch_add hands out disjoint ranges, gbd.disjoint)
+     - owner of entries s <  first_block: the thread whose CAS on entry 0 succeeded (first-block election)
+   Memory model: ONE arbitrary entry (G_tab, G_s) is tracked exactly (value g_val, interference applied whenever it is accessed); every guarantee is asserted
+   for that entry, hence for every entry.  Reads of any other entry return an arbitrary value (any interleaving of the other threads), except that an entry
+   only this thread may write and has not written yet reads as NULL.                                                                                      */
+bool g_exc;
+#define EXC_PENDING() (g_exc)
+#define EXC_RETHROW(r) return r
+#define EXC_PROPAGATE(r) do { if (g_exc) return r; } while (0)
+#define ASSIGN_UNLESS_THROWN(lhs, call) do { segment_type tmp_ = (call); if (!EXC_PENDING()) (lhs) = tmp_; } while (0)
+size_t G_fb, G_seg, G_index; bool G_owner, g_won;    /* my call: first block, requested segment, my index, "I hold the segment's first index"; ghost: I won the first-block election */
+bool IN_alloc_fails;
+unsigned g_allocs, g_frees; segment_type g_my_alloc; size_t g_my_alloc_n;
+segment_table_type G_tab; size_t G_s; segment_type g_val; bool g_w;   /* the tracked entry, its value, "this call has written it" */
+segment_type g_val_cas; bool g_w_cas;                                 /* ghost: the tracked entry right after this call won the CAS on entry 0 */
+segment_table_type G_table0; bool g_req_published;
+#define IS_G(tab, s) ((tab) == G_tab && (s) == G_s)
+#define IN_TABLE(tab, s) ((tab) == g_emb ? (s) < 3 : ((tab) == g_long && (s) < 64))
+static bool i_own(size_t s) { return s < G_fb ? g_won : (G_owner && s == G_seg); }
+static void interfere_g(void) {
+    if (g_w) return;                                               /* I published it: nobody changes it any more */
+    if (i_own(G_s)) {                                              /* only I may write it and I have not yet: still NULL (entry 0 of the first block is the election itself) */
+        if (!(G_s == 0 && 0 < G_fb)) __CPROVER_assume(g_val == NULL);
+        return;
+    }
+    if (g_val == NULL && nondet_bool()) { segment_type x = (segment_type)nondet_ptr(); __CPROVER_assume(x != NULL); g_val = x; }
+}
+static segment_type entry_read(segment_table_type tab, size_t s) {
+    __CPROVER_assert(IN_TABLE(tab, s), "C11.seg: every access to a segment table lies inside that table");
+    if (IS_G(tab, s)) { interfere_g(); return g_val; }
+    segment_type x = (segment_type)nondet_ptr();
+    if (i_own(s) && !(s == 0 && 0 < G_fb)) __CPROVER_assume(x == NULL);
+    if (g_req_published && tab == G_table0 && s == G_seg) __CPROVER_assume(x != NULL);   /* create_segment returned: the requested entry is published (and published entries never change) */
+    return x;
+}
+#define ENTRY_LOAD_AT(site, tab, i) entry_read((tab), (i))
+#define ENTRY_STORE_AT(site, tab, i, v) do { segment_table_type t_ = (tab); size_t s_ = (i); segment_type v_ = (v); \
+    __CPROVER_assert(IN_TABLE(t_, s_), "C11.seg: every access to a segment table lies inside that table"); \
+    if (IS_G(t_, s_)) { interfere_g(); segment_type old_ = g_val; g_val = v_; g_w = true; \
+        __CPROVER_assert(i_own(s_), "guarantee at " #site ": a table entry is written only by the thread that owns its segment (first-block winner, or holder of the segment's first index)"); \
+        __CPROVER_assert(old_ == NULL || old_ == v_, "guarantee at " #site ": a published table entry is never changed (segment addresses never change)"); } } while (0)
+static bool entry_cas(segment_table_type tab, size_t s, segment_type *expected, segment_type desired) {
+    segment_type cur = entry_read(tab, s);
+    if (tab == G_table0 && s == G_seg && (cur == *expected ? desired : cur) != NULL) g_req_published = true;   /* whoever won, the entry is non-null from now on */
+    if (cur == *expected) { if (IS_G(tab, s)) { g_val = desired; g_w = true; } g_won = true; g_val_cas = g_val; g_w_cas = g_w; return true; }
+    *expected = cur; return false;
+}
+/* the CAS on entry 0 IS the election for the first block: legal for any thread while 0 < first_block; success makes the caller the owner */
+#define ENTRY_CAS_AT(site, tab, i, e, d) ({ size_t s_ = (i); segment_type exp_ = *(e); bool r_ = entry_cas((tab), s_, (e), (d)); \
+    if (r_) { __CPROVER_assert(CAS_LEGAL(s_), "guarantee at " #site ": only an entry whose owner is decided by this CAS (entry 0: the first-block election) is written by CAS"); \
+              __CPROVER_assert(exp_ == NULL, "guarantee at " #site ": a published table entry is never changed (segment addresses never change)"); } r_; })
+#define ENTRY_SPIN_WAIT_WHILE_EQ_AT(tab, i, val) do { segment_type x_ = entry_read((tab), (i)); __CPROVER_assume(x_ != (val)); } while (0)
+/* my_first_block: assigned before any segment is created and never changed afterwards (afb.once) */
+#define ATOMIC_LOAD_AT(site, f) (f)
+static segment_type STUB_segment_allocate(struct cv *self, size_type n) {
+    if (g_allocs < 2) g_allocs++;
+    if (IN_alloc_fails) { g_exc = true; return NULL; }
+    g_my_alloc = (segment_type)nondet_ptr(); __CPROVER_assume(g_my_alloc != NULL && g_my_alloc != segment_allocation_failure_tag);
+    if (G_seg >= G_fb) __CPROVER_assume(g_my_alloc - segment_base(G_seg) != NULL && g_my_alloc - segment_base(G_seg) != segment_allocation_failure_tag);   /* the biased address is not 0 or 1 (listed assumption) */
+    g_my_alloc_n = n; return g_my_alloc;
+}
+static void STUB_segment_deallocate(struct cv *self, segment_type p, size_type n) {
+    OBLIGATION(g_allocs == 1 && !IN_alloc_fails && p == g_my_alloc && n == g_my_alloc_n && g_frees == 0, "C11.seg: a thread frees only the block it allocated itself, once, with the size it asked for");
+    if (g_frees < 2) g_frees++;
+}
+/* contract of extend_table_if_necessary(table, 0, end) (table.extend job): afterwards `table` is the active table, which is the long table when
+   end > embedded_table_size; it may throw bad_alloc */
+bool IN_extend_throws;
+void st_extend_table_if_necessary(struct cv *self, segment_table_type *table, size_type start, size_type end) {
+    if (*table == self->my_embedded_table && end > 8) {
+        if (IN_extend_throws) { g_exc = true; return; }
+        self->my_segment_table = g_long; *table = g_long;
+    }
+}
+/* the three store loops of the election winner: the tracked entry holds the stored value once the loop has passed it, and its value at the election before */
+#define W1(n) (G_tab == table && 1 <= G_s && G_s < (n) && G_s < end_segment)
+#define W2(n) (G_tab == table && 1 <= G_s && G_s < (n) && G_s < first_block)
+#define W3(n) (G_tab == self->my_embedded_table && 1 <= G_s && G_s < (n) && G_s < first_block && G_s < pointers_per_embedded_table)
+#define G_IS(written, v) ((written) ? (g_val == (v) && g_w && g_val_cas == NULL) : (g_val == g_val_cas && g_w == g_w_cas))
+size_t IN_s, IN_sgx; bool IN_gemb;
+#ifndef SEG_ENABLE
+#define CAS_LEGAL(s) ((s) == 0 && 0 < G_fb)
+#define LOOP_cs_1 __CPROVER_assigns(i, g_val, g_w) __CPROVER_loop_invariant(i >= 1 && g_won && G_IS(W1(i), segment_allocation_failure_tag)) __CPROVER_decreases(i < end_segment ? end_segment - i : 0)
+#define LOOP_cs_2 __CPROVER_assigns(i, g_val, g_w) __CPROVER_loop_invariant(i >= 1 && g_won && G_IS(W2(i), new_segment)) __CPROVER_decreases(i < first_block ? first_block - i : 0)
+#define LOOP_cs_3 __CPROVER_assigns(i, g_val, g_w) __CPROVER_loop_invariant(i >= 1 && g_won && G_IS(W2(first_block) || W3(i), new_segment)) __CPROVER_decreases(i < first_block ? first_block - i : 0)
+#include "create_segment.inc"
+void h_create_segment(void) {
+    struct cv v; bool emb = IN_emb = nondet_bool(); mk_vector(&v, emb);
+    size_t fb = IN_fb = nondet_size_t(); __CPROVER_assume(fb <= 63); v.my_first_block = fb; G_fb = fb;   /* first_block = 1 + a segment index of a vector of less than 2^63 elements */
+    size_t seg = IN_sgx = nondet_size_t(), index = IN_index = nondet_size_t();
+    __CPROVER_assume(seg == segment_index_of(index));            /* enable_segment(segment, table, segment_index_of(index), index) */
+    __CPROVER_assume(seg < (emb ? 3 : 64));                      /* internal_subscript<true> extended the table for index before looking at the entry */
+    __CPROVER_assume(seg < 63);                                  /* vectors of less than 2^63 elements */
+    G_seg = seg; G_index = index; g_won = false; g_exc = false; g_allocs = g_frees = 0;
+    IN_alloc_fails = nondet_bool(); IN_extend_throws = nondet_bool();
+    G_owner = seg >= fb && index == segment_base(seg);
+    /* the tracked entry: any entry of either table, any value the protocol allows */
+    IN_gemb = nondet_bool(); G_tab = IN_gemb ? g_emb : g_long; G_s = IN_s = nondet_size_t(); __CPROVER_assume(G_s < (IN_gemb ? 3 : 64));
+    g_val = (segment_type)nondet_ptr(); g_w = false;
+    segment_type before = g_val;
+#ifdef SEG_FAILTAG   /* domain: the first-block allocation fails while the table is the embedded one and the first block is shorter than the embedded table */
+    __CPROVER_assume(IN_alloc_fails && emb && fb < 3 && seg < fb);
+#else
+    __CPROVER_assume(!(IN_alloc_fails && emb && fb < 3 && seg < fb));
+#endif
+    segment_table_type table0 = v.my_segment_table;
+    segment_type r = cv_create_segment(&v, table0, seg, index);
+    OBLIGATION(r == NULL, "C11.seg: concurrent_vector::create_segment publishes the segment itself and returns nullptr");
+    OBLIGATION(g_exc == ((IN_alloc_fails && g_allocs == 1) || (g_exc && IN_extend_throws)), "C11.seg: create_segment throws iff its own allocation (or the table extension) failed");
+    bool owner = G_owner;
+    if (seg >= fb) {
+        OBLIGATION(g_allocs == (owner ? 1 : 0) && g_frees == 0, "C11.seg: a segment outside the first block is allocated by exactly one thread, the holder of its first index; nobody else allocates and nothing is freed");
+        if (owner && IS_G(table0, seg)) {
+            if (!IN_alloc_fails) OBLIGATION(g_val == g_my_alloc - segment_base(seg) && g_my_alloc_n == segment_size(seg) && !g_exc,
+                                            "C11.seg: the owner publishes its allocation of segment_size(k) elements, biased by -segment_base(k), in the entry of segment k");
+            else OBLIGATION(g_val == segment_allocation_failure_tag && g_exc, "C11.seg: when the owner's allocation fails the entry is tagged as failed (waiters throw instead of spinning) and bad_alloc propagates");
+        }
+    } else {
+        OBLIGATION(g_allocs <= 1, "C11.seg: a thread allocates the first block at most once");
+        if (g_won && !IN_alloc_fails) {
+            OBLIGATION(g_frees == 0 && g_my_alloc_n == segment_size(fb), "C11.seg: the first-block winner keeps its allocation of segment_size(first_block) elements");
+            if (!g_exc) {
+                segment_table_type tw = (table0 == g_emb && segment_size(fb) > 8) ? g_long : table0;
+                if (G_tab == tw && 1 <= G_s && G_s < fb) OBLIGATION(g_val == g_my_alloc, "C11.seg: every segment below my_first_block shares the winner's one allocation (entry k == the block's address, unbiased)");
+                if (IS_G(table0, 0)) OBLIGATION(g_val == g_my_alloc, "C11.seg: entry 0 holds the winner's allocation");
+                if (G_tab == g_emb && 1 <= G_s && G_s < fb) OBLIGATION(g_val == g_my_alloc, "C11.seg: the embedded table's first-block entries are filled too (threads may wait on an embedded snapshot)");
+            }
+        }
+        if (!g_won && g_allocs == 1 && !IN_alloc_fails) OBLIGATION(g_frees == 1, "C11.seg: the loser of the first-block election frees its own allocation");
+        if (g_allocs == 0) OBLIGATION(g_frees == 0, "C11.seg: a thread that did not allocate frees nothing");
+    }
+    if (!g_exc && IS_G(table0, seg)) { interfere_g(); OBLIGATION(g_val != NULL, "C11.seg: create_segment returns normally only after the entry of the requested segment is published"); }
+    if (before != NULL) OBLIGATION(g_val == before, "C11.seg: an entry that was published before the call is unchanged");
+    VACUITY_END();
+}
+#else  /* SEG_ENABLE: segment_table::enable_segment against the contract of create_segment */
+/* create_segment, two contracts:
+     vector  (IN_generic == 0, proved by seg.create): publishes the entry itself (or waits for its owner) and returns nullptr; or throws
+     generic (IN_generic == 1, the segment_table contract used by other containers): returns a fresh allocation and leaves publication to enable_segment's CAS */
+#define CAS_LEGAL(s) ((s) == G_seg)
+bool IN_generic, IN_cs_throws; segment_type g_fresh; unsigned g_dealloc_calls; segment_type g_dealloc_p; size_t g_dealloc_seg;
+static segment_type cv_create_segment(struct cv *self, segment_table_type table, segment_index_type seg_index, size_type index) {
+    if (IN_cs_throws) { g_exc = true; return NULL; }
+    if (IN_generic) { g_fresh = (segment_type)nondet_ptr(); __CPROVER_assume(g_fresh != NULL && g_fresh - segment_base(seg_index) != NULL); return g_fresh; }
+    g_req_published = true;
+    if (IS_G(table, seg_index)) { interfere_g(); __CPROVER_assume(g_val != NULL); }
+    return NULL;
+}
+static void STUB_deallocate_segment(struct cv *self, segment_type p, size_t seg_index) { if (g_dealloc_calls < 2) g_dealloc_calls++; g_dealloc_p = p; g_dealloc_seg = seg_index; }
+#define EXC_PROPAGATE0() do { if (g_exc) return; } while (0)
+#undef EXC_PROPAGATE
+#define EXC_PROPAGATE(...) do { if (g_exc) return __VA_ARGS__; } while (0)
+#include "enable_segment.inc"
+void h_enable_segment(void) {
+    struct cv v; bool emb = IN_emb = nondet_bool(); mk_vector(&v, emb);
+    size_t seg = IN_sgx = nondet_size_t(), index = IN_index = nondet_size_t();
+    __CPROVER_assume(seg == segment_index_of(index) && seg < (emb ? 3 : 64) && seg < 63);
+    G_fb = 0; G_seg = seg; G_index = index; G_owner = false; g_won = false; g_exc = false;
+    IN_generic = nondet_bool(); IN_cs_throws = nondet_bool(); g_dealloc_calls = 0; g_req_published = false;
+    IN_gemb = nondet_bool(); G_tab = IN_gemb ? g_emb : g_long; G_s = IN_s = nondet_size_t(); __CPROVER_assume(G_s < (IN_gemb ? 3 : 64));
+    g_val = (segment_type)nondet_ptr(); g_w = false;
+    segment_type before = g_val;
+    segment_table_type table0 = G_table0 = v.my_segment_table;
+    segment_type out = (segment_type)nondet_ptr();
+    st_enable_segment(&v, &out, table0, seg, index);
+    OBLIGATION(g_exc == IN_cs_throws, "C11.seg: enable_segment throws iff create_segment threw");
+    if (!g_exc) {
+        OBLIGATION(out != NULL, "C11.seg: the segment pointer handed back by enable_segment is never null");
+        if (IS_G(table0, seg)) OBLIGATION(out == g_val, "C11.seg: the segment pointer handed back by enable_segment is the published entry of that segment");
+        if (IN_generic) {
+            if (IS_G(table0, seg)) {
+                OBLIGATION((g_dealloc_calls == 0) == (g_w && g_val == g_fresh - segment_base(seg)), "C11.seg: the CAS winner publishes its allocation biased by -segment_base(k) and keeps it; the loser frees its own allocation");
+                OBLIGATION(g_dealloc_calls <= 1 && (g_dealloc_calls == 0 || (g_dealloc_p == g_fresh && g_dealloc_seg == seg)), "C11.seg: the loser frees exactly its own allocation, once");
+            }
+        } else OBLIGATION(g_dealloc_calls == 0, "C11.seg: nothing is freed when create_segment published the segment itself");
+    }
+    if (before != NULL) OBLIGATION(g_val == before, "C11.seg: an entry that was published before the call is unchanged");
+    VACUITY_END();
+}
+#endif
+#endif
+
+/* ================================================================ RG on my_segment_table: extend_table_if_necessary + allocate_long_table */
+#ifdef EXTRG
+/* shared words: my_segment_table (embedded -> ONE long table, once, never back), my_segment_table_allocation_failed (false -> true), the three embedded
+   entries (NULL -> published, once).  interfere_all() = any number of steps of any number of other threads under that rely.                          */
+bool g_exc;
+#define EXC_PENDING() (g_exc)
+#define EXC_THROW(x) (g_exc = true)
+#define EXC_RETHROW() return
+#define EXC_PROPAGATE(r) do { if (g_exc) return r; } while (0)
+struct cv *g_v;
+static segment_type g_newtab[64];                 /* the long table this call allocates (private until its CAS succeeds) */
+unsigned g_tab_allocs, g_tab_frees; bool IN_alloc_fails, g_i_published, g_flag_set_by_me;
+segment_type g_copied[3]; bool g_copied_valid[3]; /* ghost: what this call read from the embedded entries when it filled its table */
+static void interfere_emb(int s) { if (g_emb[s] == NULL && nondet_bool()) { segment_type x = (segment_type)nondet_ptr(); __CPROVER_assume(x != NULL); g_emb[s] = x; } }
+static void interfere_all(void) {
+    if (g_v->my_segment_table == g_emb && nondet_bool()) g_v->my_segment_table = g_long;     /* another thread published ITS long table */
+    if (nondet_bool()) g_v->my_segment_table_allocation_failed = true;
+    interfere_emb(0); interfere_emb(1); interfere_emb(2);
+}
+#define W_INV (g_v->my_segment_table == g_emb || g_v->my_segment_table == g_long || (g_i_published && g_v->my_segment_table == g_newtab))
+#define ATOMIC_LOAD_AT(site, f) (*({ interfere_all(); &(f); }))
+#define ATOMIC_STORE_AT(site, f, v) do { interfere_all(); (f) = (v); g_flag_set_by_me = true; } while (0)
+#define ATOMIC_CAS_AT(site, f, e, d) ({ interfere_all(); segment_table_type old_ = (f), d_ = (d); bool r_ = (old_ == *(e)); \
+    if (r_) { (f) = d_; g_i_published = true; \
+        __CPROVER_assert(old_ == g_emb, "guarantee at " #site ": my_segment_table is only ever switched from the embedded table to a long table (one CAS, never back, never twice)"); \
+        __CPROVER_assert(d_ == g_newtab && g_tab_allocs == 1 && g_tab_frees == 0, "guarantee at " #site ": the table published is the fully built long table this call allocated (never null, never a freed one)"); \
+    } else *(e) = old_; \
+    __CPROVER_assert(W_INV, "guarantee at " #site ": the active table is the embedded table or the one published long table"); r_; })
+#define SPIN_WAIT_WHILE_EQ_AT(f, val) do { interfere_all(); __CPROVER_assume((f) != (val)); } while (0)
+static segment_table_type STUB_table_allocate(struct cv *self, size_type n) {
+    if (g_tab_allocs < 2) g_tab_allocs++;
+    OBLIGATION(n == 64, "C11.table: the long table has pointers_per_long_table entries");
+    if (IN_alloc_fails) { g_exc = true; return NULL; }
+    for (int s = 0; s < 64; ++s) g_newtab[s] = (segment_type)nondet_ptr();   /* fresh memory: arbitrary contents */
+    return g_newtab;
+}
+static size_t g_construct_next;
+static void STUB_construct_entry(segment_type *p, segment_type v) {
+    size_t s = g_construct_next++;
+    OBLIGATION(p == &g_newtab[s] && s < 64, "C11.table: every entry of the new table is constructed exactly once, in order");
+    if (s < 3) { OBLIGATION(v == g_emb[s], "C11.table: entry k < 3 of the new table is the embedded entry k as read at this moment"); g_copied[s] = v; g_copied_valid[s] = true; }
+    *p = v;
+}
+static void STUB_destroy_and_deallocate_table(struct cv *self, segment_table_type tab, size_type n) {
+    OBLIGATION(tab == g_newtab && n == 64 && g_tab_allocs == 1 && !g_i_published && g_tab_frees == 0, "C11.table: only the loser of the switch frees its own, never published, table, once");
+    if (g_tab_frees < 2) g_tab_frees++;
+}
+#define embedded_table_size segment_size(pointers_per_embedded_table)   /* static constexpr size_type embedded_table_size = segment_size(pointers_per_embedded_table); (checked by spec.py) */
+#define LOOP_alt_1
+#define LOOP_alt_2
+#define LOOP_alt_3
+#define LOOP_ext_1 __CPROVER_assigns(*table_ref, g_exc, self->my_segment_table, self->my_segment_table_allocation_failed, __CPROVER_object_whole(g_emb)) \
+    __CPROVER_loop_invariant(!g_exc && W_INV && !g_i_published && g_tab_allocs == 0 && (*table_ref == g_emb || *table_ref == self->my_segment_table))
+#include "extend_table.inc"
+size_t IN_start, IN_end; bool IN_stale;
+void h_extend_table(void) {
+    struct cv v; bool emb = IN_emb = nondet_bool(); mk_vector(&v, emb); g_v = &v;
+    for (int s = 0; s < 3; ++s) g_emb[s] = (segment_type)nondet_ptr();
+    v.my_segment_table_allocation_failed = nondet_bool();
+    g_exc = false; g_tab_allocs = g_tab_frees = 0; g_i_published = false; g_flag_set_by_me = false; g_construct_next = 0;
+    IN_alloc_fails = nondet_bool();
+    size_t start = IN_start = nondet_size_t(), end = IN_end = nondet_size_t();
+    segment_table_type tbl = v.my_segment_table;                                 /* the caller's snapshot: the active table, or the embedded one while a long one is already active */
+    bool stale = IN_stale = nondet_bool(); if (stale) { __CPROVER_assume(!emb); tbl = g_emb; }
+    bool need = tbl == g_emb && end > 8;
+    size_t gs = IN_k = nondet_size_t(); __CPROVER_assume(gs < 64);
+    st_extend_table_if_necessary(&v, &tbl, start, end);
+    interfere_all();
+    OBLIGATION(W_INV, "C11.table: the active table is the embedded table or the one published long table");
+    if (!need) OBLIGATION(!g_exc && g_tab_allocs == 0 && !g_i_published && tbl == (stale ? g_emb : (emb ? g_emb : g_long)), "C11.table: nothing happens when the caller's table already covers end_index");
+    else {
+        if (!g_exc) OBLIGATION(tbl != g_emb && tbl == v.my_segment_table, "C11.table: after extend_table_if_necessary(end_index > embedded_table_size) the caller's table is the active long table");
+        OBLIGATION(g_tab_allocs <= 1 && (g_tab_allocs == 0 || IN_alloc_fails || (g_i_published != (g_tab_frees == 1))), "C11.table: a long table allocated by this call is either published by its one CAS or freed, never both, never neither");
+        if (g_i_published) {
+            OBLIGATION(v.my_segment_table == g_newtab && g_construct_next == 64, "C11.table: the published table is complete");
+            if (gs >= 3) OBLIGATION(g_newtab[gs] == NULL, "C11.table: entries 3..63 of the published long table start as NULL");
+            else {
+                OBLIGATION(g_copied_valid[gs] && g_newtab[gs] == g_copied[gs] && (g_copied[gs] == NULL || g_copied[gs] == g_emb[gs]), "C11.table: entries 0..2 of the published long table are the embedded entries, copied once");
+                if (segment_base(gs) < start) OBLIGATION(g_newtab[gs] != NULL, "C11.table: every embedded segment that starts below start_index is published before it is copied (no segment is lost by the switch)");
+            }
+        }
+        if (g_exc && start <= 8) OBLIGATION(IN_alloc_fails && v.my_segment_table_allocation_failed && !g_i_published, "C11.table: a failed long-table allocation raises the allocation-failed flag (waiting threads throw instead of spinning) and publishes nothing");
+        if (g_exc && start > 8) OBLIGATION(v.my_segment_table_allocation_failed && g_tab_allocs == 0, "C11.table: a thread that waits for the long table throws only when its allocation failed elsewhere");
+    }
+    VACUITY_END();
+}
+#endif
+
+/* ================================================================ internal_grow: what a growing call does with the range it claimed */
+#ifdef GROW
+bool g_exc;
+#define EXC_PENDING() (g_exc)
+#define EXC_PROPAGATE(r) do { if (g_exc) return r; } while (0)
+size_t w_afb_arg; unsigned w_afb_calls, w_ext_calls, w_en_calls, w_ilc_calls;
+size_t w_ext_start, w_ext_end, w_en_seg, w_en_index, w_ilc_start, w_ilc_end; segment_table_type w_en_table, w_ilc_table;
+bool IN_ext_throws, IN_en_throws, IN_ilc_throws;
+value_type *w_ret_addr; size_t w_ret_idx; bool w_returned;
+#define ITER2(vec, i, a) (w_returned = true, w_ret_idx = (i), w_ret_addr = (a), (iterator){ (vec), (i) })
+/* callee contracts: afb.once, table.extend, seg.enable, ilc.loop */
+void st_assign_first_block_if_necessary(struct cv *self, segment_index_type index) {
+    if (w_afb_calls < 2) w_afb_calls++; w_afb_arg = index;
+    if (self->my_first_block == 0 && index != 0) { size_t other = nondet_size_t(); self->my_first_block = nondet_bool() ? index : (other != 0 ? other : index); }
+}
+void st_extend_table_if_necessary(struct cv *self, segment_table_type *table, size_type start, size_type end) {
+    if (w_ext_calls < 2) w_ext_calls++; w_ext_start = start; w_ext_end = end;
+    if (*table == self->my_embedded_table && end > 8) {
+        if (IN_ext_throws) { g_exc = true; return; }
+        self->my_segment_table = g_long; *table = g_long;
+    }
+}
+void st_enable_segment(struct cv *self, segment_type *segment, segment_table_type table, size_type seg_index, size_type index) {
+    if (w_en_calls < 2) w_en_calls++; w_en_seg = seg_index; w_en_index = index; w_en_table = table;
+    if (IN_en_throws) { g_exc = true; return; }
+    if (seg_index < (table == g_emb ? 3 : 64)) { if (table[seg_index] == NULL) { segment_type x = (segment_type)nondet_ptr(); __CPROVER_assume(x != NULL); table[seg_index] = x; } *segment = table[seg_index]; }
+}
+static void STUB_internal_loop_construct(struct cv *self, segment_table_type table, size_type start, size_type end) {
+    if (w_ilc_calls < 2) w_ilc_calls++; w_ilc_table = table; w_ilc_start = start; w_ilc_end = end;
+    if (IN_ilc_throws) { g_exc = true; return; }
+    size_t k = segment_index_of(start);   /* on normal return every element of [start, end) is constructed, so its segment is allocated */
+    if (k < (self->my_segment_table == g_emb ? 3 : 64) && !valid_seg(self->my_segment_table[k])) { segment_type x = (segment_type)nondet_ptr(); __CPROVER_assume(valid_seg(x)); self->my_segment_table[k] = x; }
+}
+#include "grow2.inc"
+void h_internal_grow(void) {
+    struct cv v; bool emb = IN_emb = nondet_bool(); mk_vector(&v, emb);
+    for (int s = 0; s < 64; ++s) { g_long[s] = (segment_type)nondet_ptr(); if (s < 3) g_emb[s] = (segment_type)nondet_ptr(); }
+    size_t start = IN_i = nondet_size_t(), end = IN_j = nondet_size_t();
+    __CPROVER_assume(start < end && end <= ((size_t)1 << 63));          /* the claimed range is not empty; vectors of at most 2^63 elements */
+    __CPROVER_assume(end <= v.my_size);                                   /* the range was claimed from my_size, which only grows */
+    if (!emb) __CPROVER_assume(1);
+    IN_ext_throws = nondet_bool(); IN_en_throws = nondet_bool(); IN_ilc_throws = nondet_bool();
+    g_exc = false; w_afb_calls = w_ext_calls = w_en_calls = w_ilc_calls = 0; w_returned = false;
+    cv_internal_grow_body(&v, start, end);
+    OBLIGATION(w_afb_calls == 1 && w_afb_arg == segment_index_of(end - 1) + 1, "C11.grow: the first block is proposed as the number of segments this call's range needs");
+    OBLIGATION(w_ext_calls == 1 && w_ext_start == start && w_ext_end == end, "C11.grow: the table is extended for exactly the claimed range before any of its entries is read");
+    if (w_en_calls) OBLIGATION(w_en_calls == 1 && w_en_seg == segment_index_of(end - 1) && w_en_index == segment_base(w_en_seg) && start <= w_en_index && w_en_index < end && w_en_table == v.my_segment_table,
+                               "C11.grow: the last segment is allocated eagerly only by the call that owns that segment's first index, in the active table");
+    if (!g_exc || IN_ilc_throws && w_ilc_calls) OBLIGATION(w_ilc_calls == 1 && w_ilc_start == start && w_ilc_end == end && w_ilc_table == v.my_segment_table,
+                               "C11.grow: the call constructs exactly the range [start, end) it claimed, through the active table");
+    if (!g_exc) OBLIGATION(w_returned && w_ret_idx == start && w_ret_addr == st_internal_subscript(&v, start, false), "C11.grow: the returned iterator designates the first index of the claimed range and its element's address");
+    VACUITY_END();
+}
+#ifdef RESERVE
+/* ---- reserve(n): creates exactly the missing segments that hold an index below n, through internal_subscript<true> at their first index; moves nothing */
+#define EXC_THROW(x) (g_exc = true)
+#undef EXC_PROPAGATE
+#define EXC_PROPAGATE(...) do { if (g_exc) return __VA_ARGS__; } while (0)
+static value_type g_cell_r;
+size_t r_s; unsigned r_calls_s; size_t r_last_idx; bool r_in_order, r_only_first_indices; size_t r_max, r_calls; bool IN_sub_throws_at_s;
+static size_type cv_max_size(struct cv *self) { return r_max; }
+static value_type *STUB_subscript_growing(struct cv *self, size_type idx) {
+    if (idx != segment_base(segment_index_of(idx))) r_only_first_indices = false;
+    if (r_calls && idx <= r_last_idx) r_in_order = false;
+    r_last_idx = idx; r_calls++;
+    if (idx == segment_base(r_s)) { if (r_calls_s < 2) r_calls_s++; if (IN_sub_throws_at_s) { g_exc = true; return NULL; } }
+    return &g_cell_r;
+}
+#define LOOP_reserve_1 __CPROVER_assigns(seg_idx, g_exc, r_calls, r_calls_s, r_last_idx, r_in_order, r_only_first_indices) \
+    __CPROVER_loop_invariant(!g_exc && start_seg_idx <= seg_idx && seg_idx <= 63 && r_only_first_indices && r_in_order && r_calls == seg_idx - start_seg_idx \
+        && r_calls_s == ((start_seg_idx <= r_s && r_s < seg_idx) ? 1u : 0u) && (seg_idx == start_seg_idx || (r_last_idx == ((((size_t)1) << (seg_idx - 1)) & ~(size_t)1) && r_last_idx <= n))) /* == segment_base(seg_idx - 1), proved equal in seg.tiling's terms by the step check */ \
+    __CPROVER_decreases(64 - seg_idx)
+#include "reserve.inc"
+void h_reserve(void) {
+    struct cv v; mk_vector(&v, IN_emb = nondet_bool());
+    size_t n = IN_j = nondet_size_t(), size = IN_size = v.my_size;
+    r_max = nondet_size_t(); __CPROVER_assume(r_max <= ((size_t)1 << 63));      /* allocator max_size; vectors of at most 2^63 elements */
+    __CPROVER_assume(size <= ((size_t)1 << 63));
+    r_s = IN_k = nondet_size_t(); __CPROVER_assume(r_s < 64);
+    r_calls_s = 0; r_calls = 0; r_in_order = true; r_only_first_indices = true; IN_sub_throws_at_s = nondet_bool();
+    g_exc = false; w_afb_calls = 0;
+    cv_reserve(&v, n);
+    size_t start_seg = size == 0 ? 0 : segment_index_of(size - 1) + 1;
+    bool wanted = n != 0 && n <= r_max && start_seg <= r_s && segment_base(r_s) < n;
+    OBLIGATION(r_only_first_indices && r_in_order, "C11.reserve: reserve creates segments only through their first index, each at most once, in increasing order");
+    OBLIGATION(r_calls_s <= 1 && (r_calls_s == 0 || (n != 0 && n <= r_max && start_seg <= r_s)), "C11.reserve: reserve(n) touches only segments above the last used one, each once (no existing element is moved), and none when it throws length_error");
+    if (!g_exc) OBLIGATION(!wanted || r_calls_s == 1, "C11.reserve: after reserve(n) every segment above the last used one that holds an index below n has been created");
+    if (n > r_max) OBLIGATION(g_exc && r_calls == 0, "C11.reserve: reserve(n > max_size()) throws length_error and changes nothing");
+    if (n != 0 && n <= r_max) OBLIGATION(w_afb_calls == 1 && w_afb_arg == segment_index_of(n - 1) + 1, "C11.reserve: the first block is proposed as the number of segments n elements need");
+    VACUITY_END();
+}
+#else
+/* ---- segment_table::internal_subscript<true>: the access path of every growing call */
+void h_subscript_growing(void) {
+    struct cv v; bool emb = IN_emb = nondet_bool(); mk_vector(&v, emb);
+    for (int s = 0; s < 64; ++s) { g_long[s] = (segment_type)nondet_ptr(); if (s < 3) g_emb[s] = (segment_type)nondet_ptr(); }
+    size_t index = IN_index = nondet_size_t(); __CPROVER_assume(index < ((size_t)1 << 63));
+    size_t seg = segment_index_of(index);
+    IN_ext_throws = nondet_bool(); IN_en_throws = nondet_bool();
+    g_exc = false; g_threw = false; w_ext_calls = w_en_calls = 0;
+    bool was_null = seg < (emb ? 3 : 64) && v.my_segment_table[seg] == NULL;
+    value_type *r = st_internal_subscript(&v, index, true);
+    OBLIGATION(w_ext_calls == 1 && w_ext_start == index && w_ext_end == index + 1, "C11.sub: the table is extended for the index before its entry is read");
+    if (!g_exc) {
+        OBLIGATION(seg < (v.my_segment_table == g_emb ? 3 : 64), "C11.sub: the entry read lies inside the active table");
+        segment_type e = v.my_segment_table[seg];
+        OBLIGATION(g_threw == (e == segment_allocation_failure_tag), "C11.sub: bad_alloc is thrown iff the segment's allocation failed (entry tagged)");
+        if (!g_threw) OBLIGATION(e != NULL && r == e + index, "C11.sub: the address of element i is entry[segment_index_of(i)] + i for the published, never changing entry");
+    }
+    if (w_en_calls) OBLIGATION(w_en_calls == 1 && w_en_seg == seg && w_en_index == index && w_en_table == v.my_segment_table && (was_null || emb && v.my_segment_table == g_long),
+                               "C11.sub: enable_segment is asked for exactly this index's segment, in the active table, only when its entry was still NULL");
+    VACUITY_END();
+}
+#endif
 #endif
